@@ -353,8 +353,9 @@ func ruleGoroutines(c *Ctx, m *termModel, rule string) {
 		{"root:Node.Initialize", "(gomavlib.Node).run", "loop"},
 		{"root:channelProvider.start", "(gomavlib.channelProvider).run", "wg"},
 		{"root:Channel.start", "(gomavlib.Channel).run", "wg"},
-		{"root:Channel.run", "closure:root:Channel.run$1", "handshake"},
-		{"root:Channel.run", "closure:root:Channel.run$2", "handshake"},
+		{"root:Channel.run", "closure:root:Channel.run$", "handshake"},
+		{"root:Channel.run", "(gomavlib.Channel).runReader", "handshake"},
+		{"root:Channel.run", "(gomavlib.Channel).runWriter", "handshake"},
 	}
 	for _, fn := range rootFns(c) {
 		for _, g := range goStmts(fn) {
